@@ -1,4 +1,5 @@
 //! The simulated world: dictated-read transports, the simulated MPD server, the session engine.
+pub mod capture;
 pub mod wirerun;
 pub mod world;
 pub mod session;
